@@ -49,7 +49,7 @@ def main():
         summary.append((sid, res["result"], res.get("kind"), res.get("with_failing_input"), res["wall_s"]))
         print(sid, res["result"], res.get("kind"), "failing-input" if res.get("with_failing_input") else "", res["wall_s"], flush=True)
     # restore the generated tables / build for the unchanged tree
-    sh("/venv/bin/python tools/gen_tables.py && cd lean && lake build QR qrdrv", cwd=VERIF)
+    sh("/venv/bin/python tools/gen_tables.py && /venv/bin/python tools/translate.py && cd lean && lake build QR qrdrv", cwd=VERIF)
     missed = [s for s in summary if s[1] != "caught"]
     print(f"{len(summary) - len(missed)}/{len(summary)} caught; missed: {[s[0] for s in missed]}")
 
